@@ -108,7 +108,9 @@ func newRing(endpoints *resolver.EndpointMap[*endpointState], minRingSize, maxRi
 		// per-endpoint, these entries hash to the same value across address
 		// updates.
 		idx := 0
-		for currentHashes < targetHashes {
+		// The running sum of scale*scaledWeight can exceed scale by a rounding
+		// error; never create more than ringSize (<= maxRingSize) entries.
+		for currentHashes < targetHashes && len(items) < int(ringSize) {
 			h := xxhash.Sum64String(epInfo.hashKey + "_" + strconv.Itoa(idx))
 			items = append(items, &ringEntry{hash: h, hashKey: epInfo.hashKey, weight: epInfo.originalWeight})
 			idx++
